@@ -38,6 +38,7 @@ ASSUMPTIONS = [
     "recording tier: the fake server models INSERT..VALUES / INSERT..SELECT..FROM (VALUES..) ORDER BY sen_counter only; serial keys are assigned in "
     "sen_counter order (PostgreSQL/MSSQL documented guarantee) or VALUES order (MariaDB InnoDB) and the driver returns a bound value unchanged",
     "client-generated sentinel values are unique (documented requirement)",
+    "the server-generated-PK style uses a 128-bit randomblob() default: its value is never part of the oracle (rows are matched through the payload) and collisions are ignored",
 ]
 
 STYLES = ["autoinc", "uuid_pk", "str_pk", "sent_col", "sent_uuid", "composite", "given_pk", "nopk", "server_pk", "explicit_autoinc"]
@@ -79,7 +80,7 @@ def _build_table(sa, m, style, extras, name="t"):
     elif style == "nopk":
         cols.append(sa.Column("id", sa.Integer))
     elif style == "server_pk":
-        cols.append(sa.Column("id", sa.Integer, primary_key=True, server_default=sa.text("(abs(random()) % 1000000007 + 1)")))
+        cols.append(sa.Column("id", sa.String(40), primary_key=True, server_default=sa.text("(lower(hex(randomblob(16))))")))
     else:
         raise ValueError(style)
     cols.append(sa.Column("tok", sa.String(40), unique=True))
@@ -392,7 +393,7 @@ def _orm_class_build(sa, orm, style):
         cnt["id"] = _Counter(lambda n: "pk%04d" % (5000 - n))
         ns["id"] = orm.mapped_column(sa.String(20), primary_key=True, default=cnt["id"])
     elif style == "server_pk":
-        ns["id"] = orm.mapped_column(sa.Integer, primary_key=True, server_default=sa.text("(abs(random()) % 1000000007 + 1)"))
+        ns["id"] = orm.mapped_column(sa.String(40), primary_key=True, server_default=sa.text("(lower(hex(randomblob(16))))"))
     ns["tok"] = orm.mapped_column(sa.String(40), unique=True)
     ns["a"] = orm.mapped_column(sa.Integer, default=5, nullable=True)
     ns["b"] = orm.mapped_column(sa.String(10), nullable=True)
